@@ -24,37 +24,20 @@ UTC = timezone.utc
 
 
 class HashRecorder:
-    """Record every hash the repository computes through the names it imported from hashlib
-    (kskm.misc.hsm: sha1/sha256/sha384/sha512; kskm.ta.keydigest: sha256)."""
+    """Record every SHA-1 / SHA-2 digest computed while installed.  The constructors of `hashlib` are wrapped once in
+    harness/lib.py, before any repository module is imported, so the record does not depend on how the repository refers
+    to them (imported names, a module-level table, `hashlib.new`)."""
 
     def __init__(self) -> None:
         self.entries: list[dict[str, str]] = []
-        self._patched: list[tuple[Any, str, Any]] = []
-
-    def _mk(self, name: str) -> Any:
-        rec = self
-
-        def h(data: bytes = b"") -> Any:
-            obj = hashlib.new(name, data)
-            rec.entries.append({"alg": name, "message": hexs(bytes(data)), "digest": obj.hexdigest()})
-            return obj
-
-        return h
 
     def install(self) -> "HashRecorder":
-        import kskm.misc.hsm as hsm
-        import kskm.ta.keydigest as kd
-
-        for mod, names in ((hsm, ("sha1", "sha256", "sha384", "sha512")), (kd, ("sha256",))):
-            for n in names:
-                self._patched.append((mod, n, getattr(mod, n)))
-                setattr(mod, n, self._mk(n))
+        lib.HASH_SINKS.append(self)
         return self
 
     def uninstall(self) -> None:
-        for mod, n, orig in self._patched:
-            setattr(mod, n, orig)
-        self._patched = []
+        if self in lib.HASH_SINKS:
+            lib.HASH_SINKS.remove(self)
 
     def take(self) -> list[dict[str, str]]:
         e, self.entries = self.entries, []
